@@ -1,6 +1,7 @@
 (* Properties_C14.v — C14: decoding a range of subsets equals the slice of the full decode; merged subsets stay equal. *)
 From Coq Require Import List ZArith NArith Arith Lia Bool.
 From V Require Import Walk Fm94 Fm94Proof Fm94Slice Fm94SliceProof.
+From V Require IeeeCol IeeeColProof.
 Import ListNotations.
 Local Open Scope Z_scope.
 
@@ -52,3 +53,12 @@ Print Assumptions C14_merge_spec.
 
 Example C14_slice_example : slice 2 3 [10; 20; 30; 40]%nat = [20; 30]%nat /\ merge 0%nat [1;2]%nat 4 [7;8;9]%nat 1 5 = [1;2;0;0;8;9]%nat.
 Proof. split; reflexivity. Qed.
+
+(* 2 09 YYY (IEEE 754) columns of a compressed message, in the library's convention (IeeeCol.v): the range decoder returns the
+   slice and leaves the cursor behind the column - in particular it skips nothing when the column is stored once (NBINC = 0). *)
+Theorem C14_ieee_column_range_is_slice : forall (w:nat) (vals:list N) (a b:nat) (tl:Fm94.bits),
+  (8 <= w)%nat -> (w < 512)%nat -> Forall (fun v => (v < 2 ^ N.of_nat w)%N) vals ->
+  (1 <= a)%nat -> (a <= b)%nat -> (b <= length vals)%nat ->
+  IeeeCol.ieee_col_dec_range w (length vals) a b (IeeeCol.ieee_col_enc w vals ++ tl) = Some (IeeeCol.slice a b vals, tl).
+Proof. exact IeeeColProof.ieee_col_range. Qed.
+Print Assumptions C14_ieee_column_range_is_slice.
